@@ -6,7 +6,7 @@
    The formulas are tied to the real _divisions() methods by the T-LAYER "divisions" correspondence of the C06 check.
    The *_refuted theorems record what the unfixed code did (defects D8, D10, D20, D35, D36 and seed C06_a). *)
 From DX Require Import Base Plan PlanProofs Repart RepartCount Divisions DivisionsProofs DivisionsExtra GeneratedClassTable ClassTableChecks ClassTableDivisions ClassTableLengthFlags.
-From DX Require Import MinMax MinMaxProofs PySeq GeneratedSource SourceChecks.
+From DX Require Import MinMax MinMaxProofs PySeq GeneratedSource SourceChecks Loc LocProofs.
 Local Open Scope nat_scope.
 
 (* the executable test used by the harness on computed partitions means exactly the property *)
@@ -214,3 +214,25 @@ Theorem C06_parquet_statistics_old_refuted : exists l parts,
   ~ truthful (fst (stats_divisions_old l)) (reindex parts (snd (stats_divisions_old l)) []).
 Proof. exact stats_old_refuted. Qed.
 Print Assumptions C06_parquet_statistics_old_refuted.
+
+(* ---- label slices df.loc[lo:hi] and index arithmetic ---- *)
+Theorem C06_loc_slice_truthful : forall divs parts lo hi,
+  truthful divs parts -> parts <> [] -> slice_ok lo hi ->
+  truthful (loc_divisions divs lo hi) (loc_parts divs parts lo hi).
+Proof. exact loc_truthful. Qed.
+Print Assumptions C06_loc_slice_truthful.
+
+Theorem C06_index_map_increasing_truthful : forall f divs parts,
+  strictly_increasing_fn f -> truthful divs parts -> truthful (map f divs) (map_parts f parts).
+Proof. exact map_increasing_truthful. Qed.
+Print Assumptions C06_index_map_increasing_truthful.
+
+Theorem C06_index_map_nondecreasing_refuted : exists f divs parts,
+  nondecreasing_fn f /\ truthful divs parts /\ ~ truthful (map f divs) (map_parts f parts).
+Proof. exact map_nondecreasing_refuted. Qed.
+Print Assumptions C06_index_map_nondecreasing_refuted.
+
+Theorem C06_index_map_nonmonotone_refuted : exists (f : Z -> Z) divs parts,
+  truthful divs parts /\ ~ truthful (map f divs) (map_parts f parts).
+Proof. exact map_nonmonotone_refuted. Qed.
+Print Assumptions C06_index_map_nonmonotone_refuted.
